@@ -250,3 +250,37 @@ def configured_value_wins_over_the_stored_one(ctx):
     from sa.rules import c17
     c17.precedence(ctx)
     c17.given_flag_is_set_for_every_configured_value(ctx)
+
+
+@rule('C10.R2b', min_instances=3)
+def no_module_is_dropped_silently(ctx):
+    """get_module_instance: every path that ends without a module object (return None / modobj = None) has appended to
+    self.errors - the only exception is the branch on which the python module is known to have failed before
+    (`pymodule in self.failed_modules` TRUE: the error was reported when it failed) - so a module can not silently vanish from
+    a node that then starts without it"""
+    m = ctx.m
+    f = m.method(SN, 'get_module_instance', inherited=False)
+    ctx.analysed(f)
+    cfg = CFG(f.node, m, f.module)
+    apps = {i for c in calls_in(f.node) if call_attr(c) == 'append' and src(c.func.value) == 'self.errors' for i in cfg.node_of(c)}
+    known = set()
+    for t in cfg.nodes:
+        if t.kind == 'test':
+            for l, op, r in compare_ops(t.ast):
+                if r == 'self.failed_modules' and op in ('in', 'notin'):
+                    known |= {b for b, lab in cfg.succ[t.id] if lab == ('T' if op == 'in' else 'F')}
+    creation_start = [i for c in calls_in(f.node) if call_attr(c) == 'get' and 'module_cfg' in src(c.func) for i in cfg.node_of(c)] or [cfg.entry]
+    nones = [n for n in body_walk(f.node) if (isinstance(n, ast.Return) and isinstance(n.value, ast.Constant) and n.value.value is None) or
+             (isinstance(n, ast.Assign) and isinstance(n.value, ast.Constant) and n.value.value is None and src(n.targets[0]) == 'modobj')]
+    if not nones:
+        raise AnchorMissing('no failure exit (return None / modobj = None) found in get_module_instance')
+    for n in nones:
+        ok = cfg.all_paths_pass(creation_start, cfg.ids(n), apps | known)
+        ctx.check(ok, f'{f.qualname}:failure exit `{src(n)}` is reported', n, 'every path to it appends to self.errors (or the module failed before)',
+                  f'a path reaches `{src(n)}` without appending to self.errors: the module is silently missing and the node starts without it', f)
+    # and the NoSuchModule refusal for a name that is not configured
+    for t in cfg.nodes:
+        if t.kind == 'test' and any(op in ('is', 'isnot') and r == 'None' and l == 'opts' for l, op, r in compare_ops(t.ast)):
+            op = [op for l, op, r in compare_ops(t.ast)][0]
+            ctx.check(side_never_completes(cfg, t.id, 'T' if op == 'is' else 'F'), f'{f.qualname}:unknown module name is refused', t.ast, 'raises NoSuchModuleError',
+                      'a module name without configuration does not raise', f)
